@@ -84,3 +84,13 @@ func (env *Environment) NotifyEventBlockingForVerif(e event.DeviceEvent, timeout
 		return false
 	}
 }
+
+// HasPendingTeardownForVerif reports whether the manager still holds a pending-teardown
+// registration for the environment (the event loop removes it only after handing over the
+// TasksReleasedEvent, i.e. possibly after TeardownEnvironment has already returned).
+func (envs *Manager) HasPendingTeardownForVerif(id uid.ID) bool {
+	envs.mu.RLock()
+	defer envs.mu.RUnlock()
+	_, ok := envs.pendingTeardownsCh[id]
+	return ok
+}
